@@ -19,6 +19,8 @@
 #include "libfive/tree/data.hpp"
 #include "libfive/tree/opcode.hpp"
 #include "libfive/tree/archive.hpp"
+#include "libfive/solve/solver.hpp"
+#include "libfive/eval/eval_jacobian.hpp"
 #include "libfive/eval/deck.hpp"
 #include "libfive/eval/tape.hpp"
 #include "libfive/eval/eval_array.hpp"
@@ -142,6 +144,17 @@ static std::string dump_deck(const Ctx& cx, const Deck& d) {
     for (size_t i = 0; i < vs.size(); ++i) ss << (i ? " " : "") << vs[i];
     ss << "]";
     return ss.str();
+}
+
+namespace libfive { namespace Solver { extern void (*verif_trace)(int kind, const void* id, float value); } }
+static std::vector<std::string> g_trace;
+static const Ctx* g_ctx = nullptr;
+static std::string g_grad;
+static void solver_trace(int kind, const void* id, float value) {
+    if (kind == 0) g_trace.push_back("V" + hex32(value));
+    else if (kind == 1) { g_grad += (g_grad.empty() ? "" : ",") + std::to_string(g_ctx->var_index(static_cast<const TreeData*>(id))) + ":" + hex32(value); }
+    else if (kind == 2) { g_trace.push_back("G" + g_grad); g_grad.clear(); }
+    else if (kind == 3) g_trace.push_back("S" + std::to_string(g_ctx->var_index(static_cast<const TreeData*>(id))) + ":" + hex32(value));
 }
 
 struct IvEval : public IntervalEvaluator {
@@ -366,6 +379,58 @@ int main(int argc, char** argv) {
                     }
                     ++i;
                 }
+            }
+            else if (c == "solve") {
+                // solve h gas px py pz nmask (maskvar)* (initial value per case variable, hex)*
+                Tree tr = H(t[1]);
+                unsigned gas = (unsigned)std::stoul(t[2]);
+                Eigen::Vector3f pos(of_hex32(t[3]), of_hex32(t[4]), of_hex32(t[5]));
+                int nm = std::stoi(t[6]);
+                Solver::Mask mask;
+                std::string ms;
+                for (int k = 0; k < nm; ++k) { mask.insert(H(t[7 + k]).id()); }
+                std::map<Tree::Id, float> vars;
+                for (size_t k = 0; k < cx.vars.size(); ++k)
+                    if (7 + nm + k < t.size()) vars[cx.vars[k].id()] = of_hex32(t[7 + nm + k]);
+                g_trace.clear(); g_grad.clear(); g_ctx = &cx;
+                Solver::verif_trace = solver_trace;
+                // the overload taking an evaluator, so that the oracle below can use the same deck
+                // (min / max treat a NaN operand differently by position; operand order is per deck)
+                auto deckp = std::make_shared<Deck>(tr);
+                Deck& deck = *deckp;
+                JacobianEvaluator je(deckp, vars);
+                auto res = Solver::findRoot(je, deckp->tape, vars, pos, mask, gas);
+                Solver::verif_trace = nullptr;
+                std::ostringstream ss;
+                ss << "SI " << gas << " K";
+                for (auto& v : deck.vars.left) ss << ' ' << cx.var_index(static_cast<const TreeData*>(v.second));
+                ss << " V";
+                for (auto& v : vars) ss << ' ' << cx.var_index(static_cast<const TreeData*>(v.first)) << ':' << hex32(v.second);
+                ss << " M";
+                for (auto& m : mask) ss << ' ' << cx.var_index(static_cast<const TreeData*>(m));
+                ss << " T";
+                for (auto& e : g_trace) ss << ' ' << e;
+                out(ss.str());
+                std::ostringstream rs;
+                rs << "SR r=" << hex32(res.first) << " vars=";
+                bool first = true;
+                for (auto& v : res.second) { rs << (first ? "" : ",") << cx.var_index(static_cast<const TreeData*>(v.first)) << ':' << hex32(v.second); first = false; }
+                out(rs.str());
+                // property oracle: residual is the expression at the returned assignment
+                std::map<Tree::Id, float> fin = vars;
+                for (auto& v : res.second) fin[v.first] = v.second;
+                ArrayEvaluator chk(deckp, fin);
+                float rr = chk.value(pos);
+                bool same = (memcmp(&rr, &res.first, 4) == 0) || (std::isnan(rr) && std::isnan(res.first))
+                            || std::fabs(rr - res.first) <= 1e-5f * (1 + std::fabs(rr));
+                bool masked_ok = true, absent_ok = true;
+                for (auto& m : mask) if (res.second.count(m)) masked_ok = false;
+                for (auto& v : res.second) {
+                    bool in_deck = deck.vars.right.find(v.first) != deck.vars.right.end();
+                    if (!in_deck && memcmp(&v.second, &vars[v.first], 4) != 0) absent_ok = false;
+                }
+                out(std::string("SO residual=") + (same ? "1" : "0") + " recomputed=" + hex32(rr) + " masked=" + (masked_ok ? "1" : "0")
+                    + " absent=" + (absent_ok ? "1" : "0") + " gradcalls=" + std::to_string(std::count_if(g_trace.begin(), g_trace.end(), [](const std::string& e) { return e[0] == 'G'; })));
             }
             else if (c == "ivcheck") {
                 // ivcheck h lx ly lz ux uy uz exact(0/1) : C02's statement on one expression and box
